@@ -428,7 +428,7 @@ fn plan_inner(prop: &str, tier: &str) -> Option<Plan> {
                     .collect();
                 // (n, init_edges, shape, bound, max_exec, shards)
                 let table: Vec<(usize, usize, &str, Option<usize>, u64, usize)> = if tier == "quick" {
-                    vec![(2, 2, "2x1", None, 200_000, 16), (3, 1, "iso12", Some(2), 20_000, 16)]
+                    vec![(2, 2, "2x1", None, 200_000, 16), (3, 1, "iso12", Some(2), 20_000, 16), (2, 1, "2x1b", Some(1), 20_000, 16)]
                 } else {
                     vec![
                         (2, 2, "2x1", None, 500_000, 8),
@@ -440,6 +440,9 @@ fn plan_inner(prop: &str, tier: &str) -> Option<Plan> {
                         (3, 1, "12m", Some(2), 20_000, 16),
                         (2, 1, "q1m2", Some(2), 20_000, 16),
                         (3, 2, "2x1i", Some(2), 20_000, 32),
+                        (2, 2, "2x1b", Some(2), 50_000, 32),
+                        (3, 1, "2x1b", Some(2), 50_000, 32),
+                        (2, 1, "q2m2", Some(1), 20_000, 32),
                     ]
                 };
                 for (n, ie, shape, bound, max_exec, sh) in table {
